@@ -301,6 +301,46 @@ UNITS += [
          hints=[("loop_start", "1", "            proof { assert(self.0@[itf.index@] == *blob); lemma_hdr_sum_mono(self.0@, itf.index@ + 1, self.0@.len() as int); }")]),
 ]
 
+UNITS += [
+    Unit(name="header_from_binary", file=PF, anchor="pub(crate) fn from_binary(pack: &[u8]) -> PackFileResult<Self>", within="impl PackHeader {", ret_name="r",
+         wrap_open="impl PackHeader {", wrap_close="}",
+         functions=["repofile::packfile::PackHeader::from_binary"],
+         rewrites=[
+             Rw("PackFileResult<Self>", "Result<Self, PackFileErrorKindR>", sig=True, why="error type -> stub"),
+             Rw("Cursor::new(pack)", "ventry_cursor(pack)", why="byte cursor + binrw -> ghost sequence of the encoded entries"),
+             Rw("HeaderEntry::read(&mut reader)", "vread_entry(&mut reader)", why="binrw-derived HeaderEntry::read -> next entry of the ghost sequence"),
+             Rw("PackFileErrorKind::ReadingBinaryRepresentationFailed(err)", "vreading_failed(err)", why="error constructor -> stub"),
+             Rw("let mut offset = 0;", "let mut offset: u32 = 0;", why="integer literal type made explicit (inferred u32 from BlobLocation::offset)"),
+         ],
+         attrs="#[verifier::exec_allows_no_decreases_clause]",
+         contract="""
+    requires
+        // ASSUMED of a header that from_file accepts afterwards (it compares the sizes): the lengths add up to less than 4 GiB
+        entries_len(ENTRIES(pack@), ENTRIES(pack@).len() as int) <= u32::MAX,
+    ensures
+        // the blob list read back has one blob per header entry, in order, each with the entry's id/type/lengths and with the
+        // offset at which the blob lies if the blobs are stored back to back (what the index must say for the pack)
+        /*@blobs_are_the_entries_in_order*/ r matches Ok(h) ==> h.0@.len() <= ENTRIES(pack@).len() && forall|i: int| 0 <= i < h.0@.len() ==>
+            (#[trigger] h.0@[i]).location.offset as int == entries_len(ENTRIES(pack@), i) && h.0@[i].location.length == hentry_len(ENTRIES(pack@)[i])
+            && h.0@[i].tpe == (match ENTRIES(pack@)[i] { HeaderEntry::Tree { .. } | HeaderEntry::CompTree { .. } => BlobType::Tree, _ => BlobType::Data }),
+        /*@offsets_are_prefix_sums_of_lengths*/ r matches Ok(h) ==> forall|i: int| 0 <= i < h.0@.len() ==> (#[trigger] h.0@[i]).location.offset as int == sum_len(h.0@, i),
+""",
+         loops={1: """
+            invariant
+                entries_len(ENTRIES(pack@), ENTRIES(pack@).len() as int) <= u32::MAX,
+                blobs@.len() + reader.rest@.len() == ENTRIES(pack@).len(),
+                reader.rest@ =~= ENTRIES(pack@).subrange(blobs@.len() as int, ENTRIES(pack@).len() as int),
+                offset as int == entries_len(ENTRIES(pack@), blobs@.len() as int), offset as int == sum_len(blobs@, blobs@.len() as int),
+                forall|i: int| 0 <= i < blobs@.len() ==> (#[trigger] blobs@[i]).location.offset as int == entries_len(ENTRIES(pack@), i) && blobs@[i].location.length == hentry_len(ENTRIES(pack@)[i])
+                    && blobs@[i].tpe == (match ENTRIES(pack@)[i] { HeaderEntry::Tree { .. } | HeaderEntry::CompTree { .. } => BlobType::Tree, _ => BlobType::Data })
+                    && blobs@[i].location.offset as int == sum_len(blobs@, i),
+"""},
+         hints=[("loop_start", "1", "            let ghost b0 = blobs@;"),
+                ("before", "offset +=", "            proof { lemma_entries_len_mono(ENTRIES(pack@), b0.len() as int + 1, ENTRIES(pack@).len() as int); }"),
+                ("after", "blobs.push(blob);", "            proof { lemma_sum_len_push(b0, blob, b0.len() as int); assert forall|i: int| 0 <= i < b0.len() implies sum_len(blobs@, i) == sum_len(b0, i) by { lemma_sum_len_push(b0, blob, i); } }")],
+         ),
+]
+
 KANI = [
     Harness("repofile::packfile::verif_kani::c08_bounded_header_sizes", kind="bounded",
             bound="blob lists of length 1 or 2; ids, lengths (< 1e6), compressed/uncompressed mix and types symbolic",
